@@ -471,18 +471,18 @@ enum Cat {
 }
 
 fn synthetic(g: &mut SplitMix64, thorough: bool) -> Inst {
-    let nvars = g.range(1, if thorough { 9 } else { 6 }) as usize;
-    let l0 = g.range(0, if thorough { 120 } else { 28 }) as usize;
+    let nvars = if g.chance(1, 6) { g.range(1, 2) } else { g.range(3, if thorough { 9 } else { 6 }) } as usize;
+    let l0 = if g.chance(1, 8) { g.range(0, 4) } else { g.range(5, if thorough { 150 } else { 40 }) } as usize;
     let use_frozen = g.chance(2, 5);
     let cats: Vec<Cat> = (0..nvars)
         .map(|_| match g.below(8) {
             0 => Cat::Idle,
-            1 | 2 => Cat::NoConst,
-            3 | 4 => Cat::OneConst,
+            1 => Cat::NoConst,
+            2 | 3 => Cat::OneConst,
             _ => Cat::Many,
         })
         .collect();
-    let all_noconst = g.chance(1, 8);
+    let all_noconst = g.chance(1, 10);
     let cats: Vec<Cat> = if all_noconst {
         cats.iter().map(|c| if *c == Cat::Idle { Cat::Idle } else { Cat::NoConst }).collect()
     } else {
@@ -568,7 +568,7 @@ fn synthetic(g: &mut SplitMix64, thorough: bool) -> Inst {
     let s0: Vec<bool> = (0..nvars).map(|_| g.coin()).collect();
     let mut s = s0.clone();
     let mut slots: Snap = vec![];
-    let density = g.range(1, 4) as u64;
+    let density = g.range(2, 4) as u64;
     for _ in 0..l0 {
         if pickable.is_empty() || !g.chance(density, 4) {
             slots.push(None);
@@ -691,7 +691,7 @@ fn ising_graph(g: &mut SplitMix64, thorough: bool) -> (IsingSetup, f64) {
     }
     let transverse = *g.pick(&[0.5, 1.0, 0.25, 2.0]);
     let longitudinal = *g.pick(&[0.0, 0.0, 0.5, -0.5, 1.0, -0.25]);
-    let beta = *g.pick(&[0.25, 0.5, 1.0, 2.0, 3.0]);
+    let beta = *g.pick(&[0.25, 0.5, 1.0, 2.0, 3.0, 4.0, 6.0]);
     let rng = SharedRng::new(g.next());
     let gr = G::new_with_rng(edges, transverse, longitudinal, 4, rng.clone(), None);
     (IsingSetup { gr, rng }, beta)
@@ -853,7 +853,7 @@ fn ising_runs(g: &mut SplitMix64, thorough: bool, ngraphs: usize) {
         let (mut s, beta) = ising_graph(g, thorough);
         let rounds = if thorough { 6 } else { 3 };
         for round in 0..rounds {
-            let warm = if round == 0 { g.range(0, 3) } else { g.range(1, 6) };
+            let warm = if round == 0 { g.range(0, 6) } else { g.range(1, 8) };
             {
                 let gr = &mut s.gr;
                 for _ in 0..warm {
@@ -967,7 +967,7 @@ fn main() {
     let run_syn = a.mode == "all" || a.mode == "synthetic";
     let run_eq = a.mode == "all" || a.mode == "equilibrium";
     if run_syn {
-        let ninst = if a.thorough { 2500 } else { 350 };
+        let ninst = if a.thorough { 12000 } else { 1500 };
         for _ in 0..ninst {
             let inst = synthetic(&mut g, a.thorough);
             stat("synthetic.n_ops", inst.man.get_n());
@@ -982,9 +982,9 @@ fn main() {
         }
     }
     if run_eq {
-        ising_runs(&mut g, a.thorough, if a.thorough { 150 } else { 30 });
-        generic_runs(&mut g, a.thorough, if a.thorough { 60 } else { 12 });
-        for _ in 0..(if a.thorough { 200 } else { 40 }) {
+        ising_runs(&mut g, a.thorough, if a.thorough { 600 } else { 100 });
+        generic_runs(&mut g, a.thorough, if a.thorough { 300 } else { 40 });
+        for _ in 0..(if a.thorough { 600 } else { 100 }) {
             lockstep_case(&mut g, a.thorough);
         }
     }
